@@ -2,7 +2,7 @@
     normal form.  Statements only. *)
 From Coq Require Import List NArith.
 From MOC.Base Require Import RangeSet.
-From MOC.Model Require Import Qty Query Build Repr.
+From MOC.Model Require Import Qty Query Build Repr CellsSM.
 Import ListNotations.
 Open Scope N_scope.
 
@@ -49,6 +49,35 @@ Example C05_nonvacuous :
   from_uniq_hpx (uniq_hpx 7 12345) = (7, 12345) /\ from_zuniq Hpx 32 (to_zuniq Hpx 32 9 777) = (9, 777).
 Proof. repeat split; vm_compute; reflexivity. Qed.
 
+(** the ranges -> cells decomposition AS THE CODE COMPUTES IT (next_cell_with_knowledge: a depth-d
+    cell when the remaining length is one cell or the start is not aligned on the parent, otherwise the
+    cell of depth MAX_DEPTH - min(log2(len)/dim, trailing_zeros(start)/dim, MAX_DEPTH)) yields the
+    normal form of every valid MOC: depths <= d and indices in range, ascending and disjoint, exact
+    cover, and no cell whose parent is covered; and one step never yields a cell smaller than a cell
+    that is aligned at the start and fits (greedy dominance) *)
+Theorem C05_decomposition_is_normal_form : forall q w d l,
+  ValidMoc q w d l -> NormalCells q w d l (moc_cells q w d l).
+Proof. exact moc_cells_normal. Qed.
+
+(** the executable form (small fuel, error value when exhausted) that the oracle runs *)
+Theorem C05_decomposition_bounded_fuel_is_normal_form : forall q w d l cells,
+  ValidMoc q w d l -> moc_cells_o q w d l = Some cells -> NormalCells q w d l cells.
+Proof. exact moc_cells_o_normal. Qed.
+
+Theorem C05_decomposition_step : forall dm maxd nbits d, 0 < dm -> d <= maxd -> dm * maxd <= nbits ->
+  forall s e, mult2k (sdd dm maxd d) s -> mult2k (sdd dm maxd d) e -> s < e ->
+  exists k i s', step dm maxd nbits d s e = Some (k, i, s') /\ StepOK dm maxd d s e k i s'.
+Proof. exact step_ok. Qed.
+
+Example C05_decomposition_fuel_suffices_on_extreme_ranges :
+  moc_cells_o Hpx 64 29 [(1, 12 * 4 ^ 29 - 1)] <> None /\ moc_cells_o Time 64 61 [(1, 2 ^ 62 - 1)] <> None.
+Proof. split; vm_compute; discriminate. Qed.
+
+Example C05_decomposition_nonvacuous :
+  moc_cells Hpx 64 2 [(3 * 2 ^ 54, 21 * 2 ^ 54)] = [(2, 3); (1, 1); (1, 2); (1, 3); (1, 4); (2, 20)] /\
+  ValidMoc Hpx 64 2 [(3 * 2 ^ 54, 21 * 2 ^ 54)].
+Proof. split; [vm_compute; reflexivity|apply valid_mocb_spec; vm_compute; reflexivity]. Qed.
+
 Print Assumptions C05_cell_normal_form_checker_exact.
 Print Assumptions C05_nuniq_roundtrip.
 Print Assumptions C05_nuniq_injective.
@@ -57,3 +86,6 @@ Print Assumptions C05_zuniq_roundtrip.
 Print Assumptions C05_widening_valid.
 Print Assumptions C05_widening_all_supported_widths.
 Print Assumptions C05_widening_same_set.
+Print Assumptions C05_decomposition_is_normal_form.
+Print Assumptions C05_decomposition_step.
+Print Assumptions C05_decomposition_bounded_fuel_is_normal_form.
